@@ -38,3 +38,16 @@ Proof. intros [|]; vm_compute; reflexivity. Qed.
 (* non-vacuity: a 0200 file cannot be opened read-write by its non-root owner *)
 Theorem rdwr_reopen_refused : owner_may_open false 128 2 = false.
 Proof. vm_compute. reflexivity. Qed.
+
+(* munged --stop changes nothing in the file system, whatever state it finds (in particular it creates no lock file
+   when none is there: after a clean stop a second --stop leaves the directory as it is) *)
+From MV Require Import StartModel.
+Theorem stop_footprint_none : forall s, fst (stop_query s) = s.
+Proof. intros s. unfold stop_query. destruct (names s NLock); reflexivity. Qed.
+Lemma f_lock_query : lock_query_creat = false /\ lock_query_leaves_file = false.
+Proof. split; reflexivity. Qed.
+
+(* whatever seed file the start found — none, a good one, a short one, an untrusted one — the clean stop of that life
+   writes a seed (StartModel's shutdown program has OpenSeed / WriteSeed unconditionally: this is why it may) *)
+Theorem stop_writes_seed_always : forall f, stop_writes_seed f = true.
+Proof. intros [| | |]; reflexivity. Qed.
